@@ -53,6 +53,27 @@ def xs_of(case):
     return [(e["r"] - SHIFT) / 2.0 for e in case["exp"]]
 
 
+def points_of(case):
+    """concrete separations for the abstract query lattice: an even abstract point IS a (possible) start; an odd one stands for
+    every separation strictly between two neighbouring lattice starts - the midpoint, the floating point numbers next to
+    either end, and ends moved by 1e-12 and by a relative 1e-10 (no start lies between those and the end they are next to)"""
+    import math
+    pts = []
+    for e in case["exp"]:
+        q = e["r"] - SHIFT
+        x = q / 2.0
+        if q % 2 == 0:
+            pts.append((x, e, "at"))
+            continue
+        lo, hi = x - 0.5, x + 0.5
+        reps = [(x, "between")]
+        reps += [(math.nextafter(lo, math.inf), "next-above"), (lo + 1e-12, "next-above"), (lo + abs(lo) * 1e-10 if lo else 1e-300, "next-above")]
+        reps += [(math.nextafter(hi, -math.inf), "next-below"), (hi - 1e-12, "next-below"), (hi - abs(hi) * 1e-10 if hi else -1e-300, "next-below")]
+        for v, kind in reps:
+            pts.append((v, e, kind))
+    return pts
+
+
 def build_api(case, flavour):
     defs = []
     for j, (ty, s) in enumerate(case["listing"]):
@@ -76,8 +97,9 @@ def render_ini(case):
 def check_object(case, f, route, flavour, bad, rnd):
     """query the same object in several orders; returns {x: selected id}"""
     n = len(case["listing"])
-    xs = xs_of(case)
-    exp = {x: e for x, e in zip(xs, case["exp"])}
+    pts = points_of(case)
+    xs = [p[0] for p in pts]
+    exp = {p[0]: p[1] for p in pts}
     orders = [list(xs), list(reversed(xs)), rnd.sample(xs, len(xs)), rnd.sample(xs, len(xs))]
     chosen = {}
     nq = 0
@@ -106,9 +128,10 @@ def check_object(case, f, route, flavour, bad, rnd):
                     dv = getattr(f, name)(x)
                     want = 0.0 if rid == 0 else fn(rid, x)
                     analytic = rid == 0 or flavour == "analytic" or (flavour == "mixed" and rid % 2 == 1) or route != "api"
-                    on_boundary = any(abs(x - s / 2.0) < 1e-3 for _, s in case["listing"])
-                    if not analytic and (on_boundary or name == "deriv2"):
-                        continue    # finite differences across a range boundary are not the subject here
+                    if not analytic and name == "deriv2":
+                        continue    # second finite differences of a numerically differentiated range: C07's tolerance question
+                    # a range without an analytic derivative is differentiated numerically ON ITS OWN (it is defined on both
+                    # sides of its start), so the slope of the selected range is expected on and next to the boundaries too
                     if abs(dv - want) > (1e-9 if analytic else tol) * max(1.0, abs(want)):
                         bad.append(("derivative-from-other-range", "r=%s: value from range #%d but %s=%r (that range gives %r)" % (x, rid, name, dv, want), route))
                         return chosen, nq
